@@ -86,7 +86,7 @@ inline ccl::semantic::ConceptRecord toRecord(const Rec& r, EntityUID resolved = 
 }
 
 struct Op {
-  enum Kind { EMPLACE, ERASE, SET_EXPR, SET_ALIAS, SET_TERM, SET_TEXT, SET_CONV, MOVE, INSERT_REC, INSERT_RECS, INSERT_FROM, RESET_ALIASES, TRACK, UNTRACK, MERGE, DEDUP, ERASE_MISSING, N } kind = EMPLACE;
+  enum Kind { EMPLACE, ERASE, SET_EXPR, SET_ALIAS, SET_TERM, SET_TEXT, SET_CONV, MOVE, INSERT_REC, INSERT_RECS, INSERT_FROM, RESET_ALIASES, TRACK, UNTRACK, MERGE, DEDUP, ERASE_MISSING, SET_FORM, N } kind = EMPLACE;
   int target = 0, where = 0;     // list indices (modulo current length)
   CstType cst = CstType::term;
   std::string text;              // definition / alias / text
@@ -95,11 +95,11 @@ struct Op {
   std::vector<int> picks;        // indices into the other schema
 };
 inline const char* opName(Op::Kind k) {
-  static const char* n[] = {"Emplace", "Erase", "SetExpression", "SetAlias", "SetTerm", "SetText", "SetConvention", "MoveBefore", "InsertRecord", "InsertRecords", "InsertFromSchema", "ResetAliases", "Track", "StopTracking", "MergeWith", "DeleteDuplicates", "EraseMissing"};
+  static const char* n[] = {"Emplace", "Erase", "SetExpression", "SetAlias", "SetTerm", "SetText", "SetConvention", "MoveBefore", "InsertRecord", "InsertRecords", "InsertFromSchema", "ResetAliases", "Track", "StopTracking", "MergeWith", "DeleteDuplicates", "EraseMissing", "SetTermForm"};
   return n[k];
 }
 
-struct GenOpts { bool tracking = false; bool merges = false; int maxOps = 14; };
+struct GenOpts { bool tracking = false; bool merges = false; bool forms = false; int maxOps = 14; };
 
 inline std::vector<Op> genHistory(pbt::Ctx& c, const GenOpts& o) {
   std::vector<Op> ops;
@@ -116,7 +116,7 @@ inline std::vector<Op> genHistory(pbt::Ctx& c, const GenOpts& o) {
     else if (k < 30) op.kind = Op::ERASE;
     else if (k < 50) { op.kind = Op::SET_EXPR; op.cst = genKind(c); op.text = genDefinition(c, op.cst); op.flag = c.coin(); }
     else if (k < 60) { op.kind = Op::SET_ALIAS; op.text = genAlias(c); op.flag = c.chance(3, 4); op.where = c.ipick(1, 4); }
-    else if (k < 66) { op.kind = Op::SET_TERM; op.text = genText(c); }
+    else if (k < 66) { op.kind = (o.forms && c.chance(1, 3)) ? Op::SET_FORM : Op::SET_TERM; op.text = genText(c); op.where = c.ipick(0, 3); }
     else if (k < 71) { op.kind = Op::SET_TEXT; op.text = genText(c); }
     else if (k < 74) { op.kind = Op::SET_CONV; op.text = c.coin() ? "convention X1" : ""; }
     else if (k < 81) op.kind = Op::MOVE;
@@ -139,7 +139,7 @@ inline std::string showOp(const Op& op) {
   switch (op.kind) {
     case Op::EMPLACE: s += std::string("(") + kindName(op.cst) + ", '" + op.text + "')"; break;
     case Op::ERASE: case Op::TRACK: case Op::UNTRACK: s += "(#" + std::to_string(op.target) + (op.kind == Op::TRACK ? (op.flag ? ", editable" : ", locked") : "") + ")"; break;
-    case Op::SET_EXPR: case Op::SET_TERM: case Op::SET_TEXT: case Op::SET_CONV: s += "(#" + std::to_string(op.target) + ", '" + op.text + "')"; break;
+    case Op::SET_FORM: case Op::SET_EXPR: case Op::SET_TERM: case Op::SET_TEXT: case Op::SET_CONV: s += "(#" + std::to_string(op.target) + ", '" + op.text + "')"; break;
     case Op::SET_ALIAS: s += "(#" + std::to_string(op.target) + ", '" + op.text + "'" + (op.flag ? ", substitute" : ", keep-mentions") + ")"; break;
     case Op::MOVE: s += "(#" + std::to_string(op.target) + " before #" + std::to_string(op.where) + ")"; break;
     case Op::INSERT_REC: case Op::INSERT_RECS: case Op::MERGE: for (auto& r : op.recs) s += " " + showRec(r); break;
@@ -191,7 +191,7 @@ struct Executor {
     Applied r;
     const auto l = list();
     auto pickUid = [&](int idx) -> EntityUID { return l[static_cast<size_t>(idx) % l.size()]; };
-    const bool needsTarget = op.kind == Op::ERASE || op.kind == Op::SET_EXPR || op.kind == Op::SET_ALIAS || op.kind == Op::SET_TERM || op.kind == Op::SET_TEXT || op.kind == Op::SET_CONV || op.kind == Op::MOVE || op.kind == Op::TRACK || op.kind == Op::UNTRACK;
+    const bool needsTarget = op.kind == Op::ERASE || op.kind == Op::SET_EXPR || op.kind == Op::SET_ALIAS || op.kind == Op::SET_TERM || op.kind == Op::SET_FORM || op.kind == Op::SET_TEXT || op.kind == Op::SET_CONV || op.kind == Op::MOVE || op.kind == Op::TRACK || op.kind == Op::UNTRACK;
     if (needsTarget && l.empty()) { r.skipped = true; return r; }
     switch (op.kind) {
       case Op::EMPLACE: r.uid = form.Emplace(op.cst, op.text); r.created = {r.uid}; break;
@@ -217,6 +217,10 @@ struct Executor {
         r.returned = form.SetAliasFor(r.uid, alias, op.flag); break;
       }
       case Op::SET_TERM: r.uid = pickUid(op.target); r.returned = form.SetTermFor(r.uid, op.text); break;
+      case Op::SET_FORM: {
+        static const char* tags[] = {"sing,datv", "plur,nomn", "sing,gent", "plur,ablt"};
+        r.uid = pickUid(op.target); r.returned = form.SetTermFormFor(r.uid, op.text.empty() ? "form" : op.text, ccl::lang::Morphology(std::string_view(tags[op.where % 4]))); break;
+      }
       case Op::SET_TEXT: r.uid = pickUid(op.target); r.returned = form.SetDefinitionFor(r.uid, op.text); break;
       case Op::SET_CONV: r.uid = pickUid(op.target); r.returned = form.SetConventionFor(r.uid, op.text); break;
       case Op::MOVE: {
